@@ -1,7 +1,15 @@
 #!/bin/bash
-# usage: trymutant.sh <patch.diff> <PROP>...   — apply a seeded patch to /repo, run the quick checks, undo
+# usage: trymutant.sh <patch.diff> <PROP>...   — build the check binaries from /repo + the seeded patch, undo the
+# patch at once (other work may be building from /repo), run the quick checks on those binaries, rebuild clean
 patch=$1; shift
+export CARGO_NET_OFFLINE=true
 git -C /repo apply "$patch" || { echo "patch does not apply"; exit 2; }
-for p in "$@"; do ( cd /verif && ./check $p 2>&1 | grep -E "VIOLATION|OK \(|FAILURES|harness build" | head -4 ); done
-git -C /repo checkout -- . ; git -C /repo status --short | head -3
 ( cd /verif/harness && cargo build --release --offline 2>&1 | grep -E "^error" )
+case " $* " in *" C12 "*|*" C05 "*) ( cd /verif/harness && cargo build --offline 2>&1 | grep -E "^error" );; esac
+case " $* " in *" C19 "*) ( cd /repo && CARGO_TARGET_DIR=/verif/.work/cli-target cargo build --offline --features cli 2>&1 | grep -E "^error" );; esac
+git -C /repo checkout -- . ; git -C /repo status --short | head -3
+for p in "$@"; do ( cd /verif && VERIF_SKIP_BUILD=1 ./check $p 2>&1 | grep -E "VIOLATION|OK \(|FAILURES|harness build" | head -4 ); done
+( cd /verif/harness && cargo build --release --offline 2>&1 | grep -E "^error" )
+case " $* " in *" C12 "*|*" C05 "*) ( cd /verif/harness && cargo build --offline 2>&1 | grep -E "^error" );; esac
+case " $* " in *" C19 "*) ( cd /repo && CARGO_TARGET_DIR=/verif/.work/cli-target cargo build --offline --features cli 2>&1 | grep -E "^error" );; esac
+true
